@@ -2,7 +2,10 @@
    (src/database/dml/insert.rs, update.rs, delete.rs, src/constraints/mod.rs, CHECK evaluation in
    Model/CheckStr.v) on the two-table family of Model/ConstrSpec.v.  Definitions only;
    hand-written (the code is far outside tools/rs2v.py), tied to the code by the correspondence
-   run.  The model follows the code AS IT IS:
+   run.  The model follows the code AS IT IS (HEAD 8d427ad: tombstones are skipped by the DML scans
+   and the foreign-key checks, NULL never matches in the parent-delete check, ON DELETE CASCADE
+   removes the children's unique-index entries, UPDATE checks uniqueness among its own rows and
+   maintains the unique indexes once, with the row key as stored value):
 
    state of a table      ents: the B-tree of the table file, row id -> (DELETE_BIT, row),
                          ascending row ids (one global counter next_row_id: INSERT appends);
@@ -109,7 +112,7 @@ Definition fk_probe (pds : list cdecl) (p : tstate) (f : fkref) (v : value) : bo
   match nth_error pds (fk_col f) with
   | Some pd =>
       if is_key pd then idx_mem v (get_idx p (fk_col f))
-      else existsb (fun e => negb (is_null (col_val (fk_col f) (e_row e))) && value_eqb (col_val (fk_col f) (e_row e)) v) (ents p)
+      else existsb (fun e => live e && negb (is_null (col_val (fk_col f) (e_row e))) && value_eqb (col_val (fk_col f) (e_row e)) v) (ents p)
   | None => false
   end.
 Fixpoint fk_from (pds : list cdecl) (p : tstate) (ds : list cdecl) (vs : list value) : bool :=
@@ -182,11 +185,11 @@ Definition pk_probe (ds : list cdecl) (t : tstate) (w : option expr) : option (Z
 (* cursor_seek(row key) ... `key != target => break`, `row[pk] == target value` *)
 Definition seek_row (ds : list cdecl) (t : tstate) (k : Z) (v : value) : list entry :=
   match find_ent k (ents t) with
-  | Some e => if value_eqb (pk_val ds (e_row e)) v then [e] else []
+  | Some e => if live e && value_eqb (pk_val ds (e_row e)) v then [e] else []
   | None => []
   end.
 Definition scan_rows (t : tstate) (w : option expr) : list entry :=
-  filter (fun e => wpass w (e_row e)) (ents t).
+  filter (fun e => live e && wpass w (e_row e)) (ents t).
 (* DELETE and the multi-pass UPDATE: index path with fall-back to the scan *)
 Definition select_rows (ds : list cdecl) (t : tstate) (w : option expr) : list entry :=
   match pk_probe ds t w with
@@ -195,9 +198,6 @@ Definition select_rows (ds : list cdecl) (t : tstate) (w : option expr) : list e
   end.
 
 (* ------------------------------------------------------------------ DELETE *)
-(* OwnedValue == on the values of this family: NULL == NULL holds *)
-Definition veq (a b : value) : bool :=
-  match a, b with VNull, VNull => true | _, _ => value_eqb a b end.
 (* the foreign-key columns of c: (column of c, referenced column of p, action) *)
 Fixpoint fk_cols_from (ds : list cdecl) (i : nat) : list (nat * nat * Z) :=
   match ds with
@@ -212,11 +212,14 @@ Definition fk_cols (sch : schema) : list (nat * nat * Z) := fk_cols_from (s_c sc
 Definition del_vals (sch : schema) (sel : list entry) : list value :=
   flat_map (fun e => map (fun f => col_val (snd (fst f)) (e_row e)) (fk_cols sch)) sel.
 (* one foreign-key column of c against the child entries: None = blocked, Some ids = to cascade *)
+(* a live child entry whose foreign-key value is not NULL and equals a value to check *)
+Definition chit (vals : list value) (j : nat) (e : entry) : bool :=
+  live e && negb (is_null (col_val j (e_row e))) && vmem (col_val j (e_row e)) vals.
 Fixpoint child_scan (j : nat) (act : Z) (vals : list value) (es : list entry) : option (list Z) :=
   match es with
   | [] => Some []
   | e :: es' =>
-      let hit := existsb (veq (col_val j (e_row e))) vals in
+      let hit := chit vals j e in
       if hit && negb (act =? 2) then None
       else match child_scan j act vals es' with
            | Some ids => Some (if hit then e_id e :: ids else ids)
@@ -261,7 +264,10 @@ Definition do_delete (sch : schema) (t : tid) (st : dstate) (w : option expr) : 
   | None => (false, st)
   | Some ids =>
       let st1 := match t with
-                 | TP => mkD (d_p st) (mkT (drop_ids ids (ents (d_c st))) (idxs (d_c st))) (d_next st)
+                 | TP => mkD (d_p st) (mkT (drop_ids ids (ents (d_c st)))
+                                           (idx_del_from (idxs (d_c st)) (s_c sch) 0
+                                              (filter (fun e => existsb (Z.eqb (e_id e)) ids) (ents (d_c st)))))
+                             (d_next st)
                  | TC => st
                  end in
       let ts1 := ts_of st1 t in
@@ -294,26 +300,27 @@ Fixpoint uq_upd_from (t : tstate) (ds : list cdecl) (i : nat) (sets : list (nat 
        then match idx_find (col_val i nr) (get_idx t i) with Some k' => k' =? k | None => true end
        else true) && uq_upd_from t ds' (S i) sets k nr
   end.
-(* the 8 bytes `(pk_val as u64).to_be_bytes()` read as a row key *)
-Definition stored_pk (ds : list cdecl) (nr : row) : option Z :=
-  match pk_pos ds with
-  | Some i => match col_val i nr with VInt p => Some (p mod 2 ^ 64) | _ => None end
-  | None => None
+(* two rows of the statement must not receive the same non-NULL value in an assigned key column
+   (all rows receive the same literals: two rows and one such column suffice) *)
+Fixpoint dup_in_stmt (ds : list cdecl) (i : nat) (sets : list (nat * value)) : bool :=
+  match ds with
+  | [] => false
+  | d :: ds' =>
+      (is_key d && match assoc_set i sets with Some nv => negb (is_null nv) | None => false end) ||
+      dup_in_stmt ds' (S i) sets
   end.
-(* one maintenance pass of one index over the updated rows: (old row, new row) in order *)
-Definition idx_upd_pass (ds : list cdecl) (i : nat) (pairs : list (row * row)) (ix : index) : index :=
+(* the maintenance pass of one index over the updated rows (row id, old row, new row) in order *)
+Definition idx_upd_pass (i : nat) (trips : list (Z * row * row)) (ix : index) : index :=
   fold_left (fun a p =>
-    let ov := col_val i (fst p) in let nv := col_val i (snd p) in
+    let ov := col_val i (snd (fst p)) in let nv := col_val i (snd p) in
     let a1 := if is_null ov then a else idx_del ov a in
-    if is_null nv then a1
-    else match stored_pk ds (snd p) with Some k => idx_ins nv k a1 | None => a1 end) pairs ix.
-Fixpoint idx_upd_from (ixs : list index) (all : list cdecl) (ds : list cdecl) (i : nat)
-         (sets : list (nat * value)) (pairs : list (row * row)) : list index :=
+    if is_null nv then a1 else idx_ins nv (fst (fst p)) a1) trips ix.
+Fixpoint idx_upd_from (ixs : list index) (ds : list cdecl) (i : nat)
+         (sets : list (nat * value)) (trips : list (Z * row * row)) : list index :=
   match ixs, ds with
   | ix :: ixs', d :: ds' =>
-      (if is_key d && modified sets i
-       then idx_upd_pass all i pairs (idx_upd_pass all i pairs ix)
-       else ix) :: idx_upd_from ixs' all ds' (S i) sets pairs
+      (if is_key d && modified sets i then idx_upd_pass i trips ix else ix)
+      :: idx_upd_from ixs' ds' (S i) sets trips
   | _, _ => ixs
   end.
 Definition rewrite_rows (sel : list entry) (sets : list (nat * value)) (es : list entry) : list entry :=
@@ -343,11 +350,12 @@ Definition do_update (sch : schema) (t : tid) (st : dstate) (sets : list (nat * 
       | None => (None, st)
       | Some false => (Some false, st)
       | Some true =>
-          if forallb (fun e => uq_upd_from ts ds 0 sets (e_id e) (upd_row sets (e_row e))) sel
+          if forallb (fun e => uq_upd_from ts ds 0 sets (e_id e) (upd_row sets (e_row e))) sel &&
+             negb (match sel with _ :: _ :: _ => dup_in_stmt ds 0 sets | _ => false end)
           then
-            let pairs := map (fun e => (e_row e, upd_row sets (e_row e))) sel in
+            let trips := map (fun e => (e_id e, e_row e, upd_row sets (e_row e))) sel in
             (Some true, set_ts st t (mkT (rewrite_rows sel sets (ents ts))
-                                         (idx_upd_from (idxs ts) ds ds 0 sets pairs)))
+                                         (idx_upd_from (idxs ts) ds 0 sets trips)))
           else (Some false, st)
       end
   end.
